@@ -144,11 +144,14 @@ struct SiteModel {
 struct VoiceOracle {
     sites: Vec<SiteModel>,
     chans: Vec<Vec<u32>>,
+    /// what `samplerate` reads on this backend
+    sample_rate: f64,
 }
 
 impl VoiceOracle {
-    fn start(p: &Prog) -> Self {
+    fn start(p: &Prog, sample_rate: f64) -> Self {
         VoiceOracle {
+            sample_rate,
             sites: p
                 .sites
                 .iter()
@@ -258,7 +261,7 @@ impl VoiceOracle {
     fn step(&mut self, t: u64, dsp_in: &[f64]) -> Vec<Option<f64>> {
         let mut vals: BTreeMap<u32, (f64, bool)> = BTreeMap::new();
         for s in self.sites.iter_mut() {
-            let o = s.model.step(&s.voice, t, dsp_in);
+            let o = s.model.step(&s.voice, t, dsp_in, self.sample_rate);
             vals.insert(s.voice.id, (o, s.known));
         }
         self.chans
@@ -328,7 +331,12 @@ pub fn run(sc: &Scenario) -> RunResult {
     };
     // C07 oracle: voice models.
     let mut voracle = match (&sc.versions[0], is_c07) {
-        (Version::Gen(p), true) => Some(VoiceOracle::start(p)),
+        // the VM reads the driver plugin's rate (the simulator leaves it at the 48 kHz default), the
+        // WASM runtime the rate the driver pushed into it with set_sample_rate
+        (Version::Gen(p), true) => Some(VoiceOracle::start(
+            p,
+            if sc.backend.is_wasm() { sc.sample_rate as f64 } else { 48000.0 },
+        )),
         (_, true) => {
             res.outcome = Some(Outcome::HarnessError("C07 needs generated versions".into()));
             return res;
@@ -1059,7 +1067,7 @@ pub fn selfcheck() -> (bool, Vec<String>) {
                     input_seed: 99,
                     retire: RetireMode::Present,
                     with_scheduler: rep % 2 == 1,
-                    sample_rate: 48000,
+                    sample_rate: [48000, 44100, 96000, 48000][rep as usize % 4],
                 };
                 let r = run(&sc);
                 match r.outcome {
